@@ -824,3 +824,184 @@ Theorem C09_restore_false :
   conf_of r' = conf_of r /\ r_promotable r' = r_promotable r /\ r_id r' = r_id r.
 Proof. exact restore_false_conf. Qed.
 Print Assumptions C09_restore_false.
+
+(* ================================================================== *)
+(* 7. CROSS-NODE CLAUSE: "every node's active configuration is determined by the initial
+   configuration and the membership entries it has applied or received by snapshot, so
+   nodes at the same applied index have identical configurations, also after restart".
+   Proofs: M/RaftProofsXnode.v.
+
+   conf_after cs0 ccs : option (conf * idset) is the abstract function: ConfChange.restore of
+   the initial ConfState cs0, then ConfChange.apply_conf_change (the changer
+   Raft::apply_conf_change runs) folded over the changes ccs in order, None if one of them
+   is rejected (C09_conf_after_def).  ConfIs r cs0 ccs says that node state r carries exactly
+   that configuration and tracks exactly those ids (C09_ConfIs_def).
+
+   PROVED: RawNode::new starts at ConfIs _ (store's ConfState) [] (C09_rn_new_conf); a
+   successful apply_conf_change of cc moves ConfIs _ cs0 ccs to ConfIs _ cs0 (ccs ++ [cc]) and
+   returns to_conf_state of the new configuration, a rejected one changes nothing
+   (C09_apply_extends_conf); EVERY other RawNode entry point, stepping any message other than
+   MsgSnapshot, keeps ConfIs (C09_other_entry_points_keep_conf, _step_, _tick_); hence along
+   any run the configuration is conf_after of the accepted changes (C09_run_conf) and two
+   nodes that accepted the same changes have equal configurations and equal tracked-id sets
+   (C09_same_changes_same_conf, C09_runs_same_changes_same_conf); a node restarted
+   (Raft::new) on a store whose ConfState describes its configuration - e.g. the ConfState
+   its last apply_conf_change returned - gets the same configuration back
+   (C09_restart_same_conf; uses C12's restore round trip).  Snapshot install: Props/C15.v
+   (C15_install_same_conf, C15_step_snapshot_conf).
+
+   ASSUMED, not proved (this is the application's part of the contract): that the
+   application calls apply_conf_change with exactly the committed membership entries in
+   log order, and stores the ConfState that call returned in its snapshots / storage.
+   "Same applied index => same ccs" is then log matching (C05) and is not restated here.
+   The hypothesis incoming <> [] (the configuration has a voter) comes from C12's round
+   trip; `describes cs c` = the five vectors of cs list exactly the five sets of c. *)
+From RV Require Import M.ConfChangeProofs M.RaftProofsC17 M.RaftProofsXnode.
+
+Theorem C09_conf_after_def :
+  (forall cs0 ccs, conf_after cs0 ccs =
+     match ConfChange.restore empty_tracker cs0 with
+     | ROk t => apply_all t ccs
+     | RErr _ => None
+     end) /\
+  (forall t, apply_all t [] = Some t /\
+     forall cc rest, apply_all t (cc :: rest) =
+       match ConfChange.apply_conf_change t cc with
+       | ROk t' => apply_all t' rest
+       | RErr _ => None
+       end).
+Proof. exact (conj conf_after_def apply_all_def). Qed.
+Print Assumptions C09_conf_after_def.
+
+Theorem C09_ConfIs_def :
+  forall r cs0 ccs,
+  ConfIs r cs0 ccs <-> conf_after cs0 ccs = Some (conf_of r, pids (t_progress (r_prs r))).
+Proof. exact ConfIs_def. Qed.
+Print Assumptions C09_ConfIs_def.
+
+Theorem C09_describes_def :
+  forall cs c, describes cs c <->
+  ((forall x, IdSet.mem x (cs_voters cs) = IdSet.mem x (incoming c)) /\
+   (forall x, IdSet.mem x (cs_learners cs) = IdSet.mem x (learners c)) /\
+   (forall x, IdSet.mem x (cs_voters_outgoing cs) = IdSet.mem x (outgoing c)) /\
+   (forall x, IdSet.mem x (cs_learners_next cs) = IdSet.mem x (learners_next c)) /\
+   cs_auto_leave cs = auto_leave c).
+Proof. exact describes_def. Qed.
+Print Assumptions C09_describes_def.
+
+Theorem C09_rn_new_conf :
+  forall c st sa d n, rn_new c st sa d = Ok (inr n) -> ConfIs (rn_raft n) (MemStorage.cs st) [].
+Proof. exact rn_new_ConfIs. Qed.
+Print Assumptions C09_rn_new_conf.
+
+Theorem C09_apply_extends_conf :
+  forall r cs0 ccs cc r' ocs,
+  ConfIs r cs0 ccs -> raft_apply_conf_change r cc = Ok (r', ocs) ->
+  match ocs with
+  | Some cs' =>
+      ConfIs r' cs0 (ccs ++ [cc]) /\ cs' = to_conf_state (conf_of r') /\
+      ConfChange.apply_conf_change (conf_of r, pids (t_progress (r_prs r))) cc
+        = ROk (conf_of r', pids (t_progress (r_prs r')))
+  | None =>
+      r' = r /\
+      exists e, ConfChange.apply_conf_change (conf_of r, pids (t_progress (r_prs r))) cc = RErr e
+  end.
+Proof. exact apply_ConfIs. Qed.
+Print Assumptions C09_apply_extends_conf.
+
+(* rn_input / rn_apply: one constructor / dispatch per RawNode entry point (Props/C17.v) *)
+Theorem C09_other_entry_points_keep_conf :
+  forall n i n' cs0 ccs,
+  ConfIs (rn_raft n) cs0 ccs -> rn_apply n i = Ok n' ->
+  (forall cc, i <> RnApplyConfChange cc) ->
+  (forall m, i = RnStep m -> m_type m <> MsgSnapshot) ->
+  ConfIs (rn_raft n') cs0 ccs.
+Proof. exact rn_apply_ConfIs. Qed.
+Print Assumptions C09_other_entry_points_keep_conf.
+
+Theorem C09_step_keeps_conf :
+  forall r m r' c cs0 ccs,
+  ConfIs r cs0 ccs -> step r m = Ok (r', c) -> m_type m <> MsgSnapshot -> ConfIs r' cs0 ccs.
+Proof. exact step_ConfIs. Qed.
+Print Assumptions C09_step_keeps_conf.
+
+Theorem C09_tick_keeps_conf :
+  forall r r' b cs0 ccs, ConfIs r cs0 ccs -> tick r = Ok (r', b) -> ConfIs r' cs0 ccs.
+Proof. exact tick_ConfIs. Qed.
+Print Assumptions C09_tick_keeps_conf.
+
+(* rn_run_confs n is acc: run the inputs, appending to acc every change that
+   apply_conf_change accepted *)
+Theorem C09_run_confs_def :
+  forall n acc,
+  rn_run_confs n [] acc = Ok (n, acc) /\
+  (forall cc rest, rn_run_confs n (RnApplyConfChange cc :: rest) acc =
+     (x <- rn_apply_conf_change n cc ;;
+      rn_run_confs (fst x) rest (match snd x with Some _ => acc ++ [cc] | None => acc end))) /\
+  (forall m rest, rn_run_confs n (RnStep m :: rest) acc =
+     (n1 <- rn_apply n (RnStep m) ;; rn_run_confs n1 rest acc)) /\
+  (forall rest, rn_run_confs n (RnTick :: rest) acc =
+     (n1 <- rn_apply n RnTick ;; rn_run_confs n1 rest acc)).
+Proof. exact (fun n acc => conj eq_refl (conj (fun _ _ => eq_refl) (conj (fun _ _ => eq_refl) (fun _ => eq_refl)))). Qed.
+Print Assumptions C09_run_confs_def.
+
+Theorem C09_run_conf :
+  forall cs0 is n acc n' acc',
+  Forall (fun i => match i with RnStep m => m_type m <> MsgSnapshot | _ => True end) is ->
+  ConfIs (rn_raft n) cs0 acc -> rn_run_confs n is acc = Ok (n', acc') ->
+  ConfIs (rn_raft n') cs0 acc'.
+Proof. exact run_ConfIs. Qed.
+Print Assumptions C09_run_conf.
+
+Theorem C09_same_changes_same_conf :
+  forall r1 r2 cs0 ccs,
+  ConfIs r1 cs0 ccs -> ConfIs r2 cs0 ccs ->
+  conf_of r1 = conf_of r2 /\
+  pids (t_progress (r_prs r1)) = pids (t_progress (r_prs r2)) /\
+  to_conf_state (conf_of r1) = to_conf_state (conf_of r2).
+Proof. exact same_changes_same_conf. Qed.
+Print Assumptions C09_same_changes_same_conf.
+
+Theorem C09_runs_same_changes_same_conf :
+  forall cs0 is1 is2 n1 n2 n1' n2' ccs,
+  ConfIs (rn_raft n1) cs0 [] -> ConfIs (rn_raft n2) cs0 [] ->
+  Forall (fun i => match i with RnStep m => m_type m <> MsgSnapshot | _ => True end) is1 ->
+  Forall (fun i => match i with RnStep m => m_type m <> MsgSnapshot | _ => True end) is2 ->
+  rn_run_confs n1 is1 [] = Ok (n1', ccs) -> rn_run_confs n2 is2 [] = Ok (n2', ccs) ->
+  conf_of (rn_raft n1') = conf_of (rn_raft n2') /\
+  pids (t_progress (r_prs (rn_raft n1'))) = pids (t_progress (r_prs (rn_raft n2'))).
+Proof. exact runs_same_changes_same_conf. Qed.
+Print Assumptions C09_runs_same_changes_same_conf.
+
+Theorem C09_restart_same_conf :
+  forall r cs0 ccs c st sa d r2,
+  ConfIs r cs0 ccs -> incoming (conf_of r) <> [] ->
+  describes (MemStorage.cs st) (conf_of r) ->
+  raft_new c st sa d = Ok (inr r2) ->
+  ConfIs r2 cs0 ccs /\ conf_of r2 = conf_of r /\
+  pids (t_progress (r_prs r2)) = pids (t_progress (r_prs r)).
+Proof. exact restart_same_conf. Qed.
+Print Assumptions C09_restart_same_conf.
+
+(* Raft::new in general: the configuration is ConfChange.restore of the store's ConfState *)
+Theorem C09_raft_new_conf :
+  forall c st sa d r,
+  raft_new c st sa d = Ok (inr r) ->
+  ConfChange.restore empty_tracker (MemStorage.cs st)
+    = ROk (conf_of r, pids (t_progress (r_prs r))).
+Proof. exact raft_new_sk. Qed.
+Print Assumptions C09_raft_new_conf.
+
+(* non-vacuity: the sample leader (voters 1 2 3) is at ConfIs _ cs3 []; applying "add 4"
+   moves it to [add 4]; the abstract function then gives voters (2 3 4), learner 1 after
+   "demote 1" *)
+Example C09_conf_after_example :
+  ConfIs C09Samples.s_leader XnodeSamples.cs3 [] /\
+  (exists r' cs', raft_apply_conf_change C09Samples.s_leader XnodeSamples.cc_add4 = Ok (r', Some cs') /\
+     ConfIs r' XnodeSamples.cs3 [XnodeSamples.cc_add4] /\ cs_voters cs' = [1; 2; 3; 4]) /\
+  conf_after XnodeSamples.cs3 [XnodeSamples.cc_add4; XnodeSamples.cc_demote1]
+    = Some (mkConf [2; 3; 4] [] [1] [] false, [1; 2; 3; 4]).
+Proof.
+  split; [vm_compute; reflexivity|]. split; [|vm_compute; reflexivity].
+  do 2 eexists. split; [vm_compute; reflexivity|]. split; vm_compute; reflexivity.
+Qed.
